@@ -182,6 +182,10 @@ fn avoid_known_shapes(t: &mut Ty) {
             if !tuple {
                 rename(fs);
             }
+            // a single field whose *name* hashes to 0 (the empty name) is a one-field tuple too
+            if fs.len() == 1 && fs[0].0.id() == 0 {
+                fs[0].0 = Lab::Named("only".into());
+            }
             for f in fs.iter_mut() {
                 avoid_known_shapes(&mut f.1);
             }
@@ -597,8 +601,54 @@ fn has_one_field_tuple_struct(type_defs: &str) -> bool {
     false
 }
 
+/// `Name(T,)` anywhere (tuple struct or tuple enum variant with exactly one field).
+fn has_one_field_tuple_group(type_defs: &str) -> bool {
+    let cs: Vec<char> = type_defs.chars().filter(|c| !c.is_whitespace()).collect();
+    let mut stack: Vec<(usize, usize)> = vec![]; // (position of '(', top-level commas so far)
+    let mut angle: Vec<i32> = vec![];
+    for (i, c) in cs.iter().enumerate() {
+        match c {
+            '(' => {
+                stack.push((i, 0));
+                angle.push(0);
+            }
+            '<' => {
+                if let Some(a) = angle.last_mut() {
+                    *a += 1;
+                }
+            }
+            '>' => {
+                if let Some(a) = angle.last_mut() {
+                    if *a > 0 {
+                        *a -= 1;
+                    }
+                }
+            }
+            ',' => {
+                if angle.last().copied().unwrap_or(0) == 0 {
+                    if let Some(top) = stack.last_mut() {
+                        top.1 += 1;
+                    }
+                }
+            }
+            ')' => {
+                if let Some((start, commas)) = stack.pop() {
+                    angle.pop();
+                    // exactly one top-level comma, and it is the last character before ')'
+                    let preceded_by_ident = start > 0 && (cs[start - 1].is_alphanumeric() || cs[start - 1] == '_');
+                    if commas == 1 && i > 0 && cs[i - 1] == ',' && preceded_by_ident {
+                        return true;
+                    }
+                }
+            }
+            _ => {}
+        }
+    }
+    false
+}
+
 fn classify(text: &str, type_defs: &str, sig: &str) -> String {
-    if sig == "emitted-type-differs-from-source" && has_one_field_tuple_struct(type_defs) {
+    if sig == "emitted-type-differs-from-source" && (has_one_field_tuple_struct(type_defs) || has_one_field_tuple_group(type_defs)) {
         return format!("{sig}:one-field-tuple-record-emitted-as-newtype");
     }
     if sig == "emitted-type-differs-from-source" && has_unrenamed_numeric_member(type_defs) {
